@@ -173,3 +173,34 @@ Definition s3mon_terminates (c : s3case) : bool :=
   s_done c && (N.of_nat (List.length (s_sched c)) <=? walk_bound_N (s_cfg c) (s_bucket c))%N.
 Definition s3diffs (l : list s3case) := bad_idx s3diff l.
 Definition s3mons (l : list s3case) := mon_idx [s3mon_complete; s3mon_sound; s3mon_terminates] l.
+
+(* ===== post-processing of a fetched document ========================================= *)
+From ZenoV Require Import Ext.Post.
+
+Record pcase := PC {
+  pc_in : pin;
+  pc_kids : list bytes;              (* planted URLs expected among the children (assets) *)
+  pc_outs : list bytes;              (* planted URLs expected among the outlinks while the hop limit allows *)
+  pc_children : list (bytes * N);    (* observed: children of the item (URL, hops) *)
+  pc_outlinks : list (bytes * N) }.  (* observed: outlink items returned (URL, hops) *)
+
+Definition pair_eqb (a c : bytes * N) : bool := bytes_eqb (fst a) (fst c) && N.eqb (snd a) (snd c).
+Definition same_mset_p (l1 l2 : list (bytes * N)) : bool :=
+  Nat.eqb (List.length l1) (List.length l2)
+  && forallb (fun x => Nat.eqb (List.length (filter (pair_eqb x) l1)) (List.length (filter (pair_eqb x) l2))) l1.
+
+Definition pdiff (c : pcase) : bool :=
+  negb (same_mset_p (post_children (pc_in c)) (pc_children c)
+        && same_mset_p (post_outlinks (pc_in c)) (pc_outlinks c)).
+
+Definition pmon_hops (c : pcase) : bool :=
+  forallb (fun x => N.eqb (snd x) (p_hops (pc_in c))) (pc_children c)
+  && forallb (fun x => N.eqb (snd x) (p_hops (pc_in c) + 1)) (pc_outlinks c).
+Definition pmon_guard (c : pcase) : bool :=
+  if (p_hops (pc_in c) <? p_maxhops (pc_in c))%N then true else is_nil (pc_outlinks c).
+Definition pmon_planted (c : pcase) : bool :=
+  negb (p_body (pc_in c))
+  || (inclb (pc_kids c) (map fst (pc_children c))
+      && (if (p_hops (pc_in c) <? p_maxhops (pc_in c))%N then inclb (pc_outs c) (map fst (pc_outlinks c)) else true)).
+Definition pdiffs (l : list pcase) := bad_idx pdiff l.
+Definition pmons (l : list pcase) := mon_idx [pmon_hops; pmon_guard; pmon_planted] l.
